@@ -55,6 +55,11 @@ func c09TS(c *Ctx, r *report.Run, w *ws.Workspace, units []rt.JobUnit) error {
 			continue
 		}
 		ok := true
+		for _, l := range hc.Labels {
+			if strings.HasSuffix(l, "=malformed:non_utf8") {
+				ok = false // the recorded value went through JSON and is no longer the byte sequence that was sent (Go server only)
+			}
+		}
 		hdrs := map[string]string{"Content-Type": "application/json"}
 		for k, v := range hc.Headers {
 			if !fetchRepresentable(v) {
